@@ -3,7 +3,7 @@
 # and all Go harnesses compiled into /repo's module through the overlay (warms the Go cache).
 set -e
 cd "$(dirname "$0")"
-export GOFLAGS=-mod=mod GOPROXY=off
+export GOFLAGS=-mod=mod GOPROXY=off GODEBUG=goindex=0
 unset GOTOOLCHAIN GOSUMDB || true
 ( cd coq && coq_makefile -f _CoqProject -o Makefile && timeout 7000 make -j16 ) 
 python3 - <<'PY'
